@@ -77,7 +77,7 @@ def cases(tier, seed):
                             s = case_seed('C02', seed, op, form, kind, rel, D, rep)
                             r = np.random.default_rng(s)
                             out.append({'kind': 'arith', 'seed': s, 'params': {
-                                'op': op, 'form': form, 'other': kind, 'rel': rel, 'D': D, 'P': [1, 2, 3, 1, 2, 3, 5, 7][int(r.integers(8))],
+                                'op': op, 'form': form, 'other': kind, 'rel': rel, 'D': D, 'P': [1, 2, 3, 1, 2, 3, 5, 7, 1, 2, 3, 33, 40][int(r.integers(13))],
                                 'xshape': list(XSHAPES[int(r.integers(len(XSHAPES)))]),
                                 'data': ['ints', 'random', 'complex', 'random', 'tiny'][int(r.integers(5))],
                                 'odata': ['ints', 'random', 'complex', 'random', 'tiny'][int(r.integers(5))],
@@ -101,7 +101,7 @@ def cases(tier, seed):
             for rep in range(2 * reps):
                 s = case_seed('C02', seed, pk, D, rep)
                 r = np.random.default_rng(s)
-                out.append({'kind': 'pow', 'seed': s, 'params': {'op': pk, 'D': D, 'P': [1, 2, 3, 1, 2, 3, 5, 7][int(r.integers(8))],
+                out.append({'kind': 'pow', 'seed': s, 'params': {'op': pk, 'D': D, 'P': [1, 2, 3, 1, 2, 3, 5, 7, 1, 2, 3, 33, 40][int(r.integers(13))],
                                                                   'xshape': list(XSHAPES[int(r.integers(len(XSHAPES)))]),
                                                                   'data': ['random', 'complex', 'tiny'][int(r.integers(3)) if pk.startswith('pow_utpm') else int(r.integers(2))]}})
     return out
